@@ -4,4 +4,6 @@ P=$1; ID=$2; T=${3:-quick}
 cd /repo && git apply "$P" || exit 3
 cd /verif && ./check $ID $T; RC=$?
 git -C /repo checkout -- .
+# the generated tables follow the source: bring them back to the restored tree
+python3 /verif/tools/extract_tables.py >/dev/null 2>&1
 echo "exit=$RC"
